@@ -275,6 +275,12 @@ def run_deep(spec, acc):
     shared = gen.B('Config', kinds.node2, kw={'uid': gen.Leaf(next(gen.Node._ids) + 100000)})
     for d in range(depth):
       kw = {'uid': gen.Leaf(next(gen.Node._ids) + 100000), 'a': n}
+      if d % 3 == 1:
+        # a sibling that is built BEFORE the deep part of its level (arguments are built in
+        # signature order: a, b, c): whatever happens further down, it is invoked once
+        kw = {'uid': kw['uid'],
+              'a': gen.B('Config', kinds.node2, kw={'uid': gen.Leaf(next(gen.Node._ids) + 100000)}),
+              'c': n}
       if d % 7 == 0:
         kw['b'] = shared      # reachable at many depths
       n = gen.B('Config', kinds.node, kw=kw)
@@ -315,6 +321,12 @@ def judge_dag_deep(root, acc):
     except RecursionError:
       acc.obs('recursion_error')
       acc.case(('deep', nb), False)
+      # also a build that fails invokes nothing twice
+      uids = [r.bound.get('uid') for _, _, _, r in tr.calls() if hasattr(r, 'bound')]
+      if len(set(uids)) != len(uids):
+        acc.violation('deep:invoked-more-than-once-in-a-failing-build',
+                      f'{len(uids) - len(set(uids))} repeated invocation(s) before the RecursionError escaped',
+                      {'depth': nb})
       return
   sys.setrecursionlimit(100000)
   try:
